@@ -318,6 +318,8 @@ func C05(c *Ctx) {
 	c.expiryReadBeforeOverwrite("R05.5")
 	r.Rule("R05.7", "succeeded children are found before their statuses are overwritten: in the transaction manager a test 'child status == SUCCESS' on an entry of a group's ChildTxInfo (the test that decides which destination chains are told to roll back) is never reachable after the statuses of that group were overwritten in bulk - by a loop in the same function that assigns other entries than the one just read, or by a helper (changeMultiTxStatus) that does; after a failure receipt every child reads BEGIN_FAILURE, no child is found, and the destination chains holding succeeded children are never told to roll back.")
 	c.succeededBeforeOverwrite("R05.7")
+	r.Rule("R05.8", childReceiptFSMText)
+	c.childReceiptThroughFSM("R05.8")
 	r.Rule("R05.6", "a group belongs to its source: the global id of a one-to-many transaction (genGlobalTxID) is the hash of the source service id (ibtp.From) and the declared destination -> index map; without the source two services that declare the same map share one group record, and children of one complete, fail or time out the other's group.")
 	if gg := c.fn("R05.6", "internal/executor/contracts.genGlobalTxID"); gg != nil {
 		fields, _, nh := preimageFields(gg, func(call ssa.CallInstruction) bool {
